@@ -268,7 +268,54 @@ def r6_thread_errors_reach_finalize(cx):
         raise AnchorLost("no JoinHandle::join in the creator")
 
 
+def r7_no_partial_write_accepted(cx):
+    """'all-or-nothing': `Write::write` may accept fewer bytes than it is given (a full disk, a quota, a file size limit)
+    and says so in its result; a creator that calls it directly and drops the count takes a truncated file for a
+    complete one, returns Ok and lets the rename publish it. Every direct `write` of the creators either uses the count
+    it returns or hands the whole Result back to its caller (the `impl Write` wrappers); everything else goes through
+    `write_all`."""
+    F = cx.F
+    n = 0
+    for f in F.live_fns:
+        if "blocks" not in f or not re.search(r"^<?creator::|^tools::|^<?bases::write::|^<.* as bases::write::", f["name"]):
+            continue
+        b = None
+        for i, blk in enumerate(f["blocks"]):
+            t = blk["t"]
+            if blk.get("cleanup") or not call_is(t, r"io::Write>::write$"):
+                continue
+            b = b or F.body(f)
+            n += 1
+            dest = b.whole_copies({t["dest"]["l"]})
+            returned = 0 in dest
+            vals = ok_payloads(b, i)
+            used = False
+            for blk2 in b.blocks:
+                if blk2.get("cleanup"):
+                    continue
+                for st in blk2["s"]:
+                    if st["k"] == "assign":
+                        for o in list(rv_operands(st["rv"])) + list(st["rv"].get("fields", []) if st["rv"]["k"] == "agg" else []):
+                            pl = op_place(o) if isinstance(o, dict) else None
+                            if pl is not None and pl["l"] in vals and st["lhs"]["l"] not in vals:
+                                used = True
+                t2 = blk2["t"]
+                if t2["k"] == "call":
+                    for a in t2["args"]:
+                        pl = op_place(a)
+                        if pl is not None and pl["l"] in vals:
+                            used = True
+                elif t2["k"] == "switch":
+                    pl = op_place(t2["op"])
+                    if pl is not None and pl["l"] in vals:
+                        used = True
+            cx.ob("R7", "R7/%s/write-count-used" % re.sub(r"<.*?>", "", f["name"]).split("::")[-1], returned or used, f,
+                  "the number of bytes accepted by Write::write at line %s is used, or the Result is returned as it is (returned: %s, count used: %s)" % (t.get("ln"), returned, used), ln=t.get("ln"))
+    cx.ob("R7", "R7/direct-writes", True, "(creator)", "%d direct calls of Write::write in the creators" % n, trivial=True)
+
+
 RULES = [
+    ("R7", r7_no_partial_write_accepted, 1),
     ("R6", r6_thread_errors_reach_finalize, 1),
     ("R5", r5_buffered_writes_are_flushed, 3),
     ("R1", r1_who_may, 6),
